@@ -519,6 +519,15 @@ def programs_c06():
         tg = Tags()
         add("tx_overwrite_autocommit_%s" % lvl, [O("set", 0, "k1", tg.next()), O("begin", 1, l=lvl), O("set", 1, "k1", tg.next()), O("set", 1, "k1", tg.next())],
             [("A", [O("commit", 1)]), ("B", [O("set", 0, "k1", tg.next()), O("get", 0, "k1")]), ("G", [O("gc")])])
+    for lvl in ("RC", "RU"):
+        # an autocommit writer racing with the own write and the reads of an open transaction
+        tg = Tags()
+        add("own_write_vs_autocommit_%s" % lvl, [O("set", 0, "k1", tg.next()), O("begin", 1, l=lvl)],
+            [("A", [O("set", 0, "k1", tg.next())]), ("B", [O("set", 1, "k1", tg.next()), O("get", 1, "k1"), O("get", 1, "k1"), O("commit", 1)]),
+             ("C", [O("get", 0, "k1")])])
+    tg = Tags()
+    add("three_writers", [O("set", 0, "k1", tg.next())],
+        [("A", [O("set", 0, "k1", tg.next())]), ("B", [O("set", 0, "k1", tg.next())]), ("C", [O("set", 0, "k1", tg.next()), O("get", 0, "k1")])])
     tg = Tags()
     add("four_clients", [O("set", 0, "k1", tg.next())],
         [("A", [O("set", 0, "k1", tg.next())]), ("B", [O("del", 0, "k1")]), ("C", [O("get", 0, "k1")]), ("D", [O("keys", 0)])])
@@ -537,7 +546,7 @@ def conc_check(chk, programs, dfs_runs, rnd_runs, preempt, family_owner=None):
     hist, meta = [], []
     for e in execs:
         by_outcome[e["outcome"]] = by_outcome.get(e["outcome"], 0) + 1
-        if e["outcome"] in ("deadlock", "panic", "crash"):
+        if e["outcome"] in ("deadlock", "panic", "crash", "reopen"):
             own = family_owner or "C06"
             desc = "%s of the real code in program %s: %s" % (e["outcome"], e.get("program"), (e.get("detail") or "")[:800])
             if own == chk.prop:
